@@ -76,6 +76,21 @@ CLAIMS = {
          "Two genuine defects found this way are recorded as known findings (field-boundary ambiguity of GetMessage; strippable receiver signature).",
          "cryptographic strength, bit-level behaviour of base58/ed25519, unchanged-ledger-after-rejection (covered structurally by C15/C03/C09)",
          "edge-cut guard dominance + return-propagation analysis + struct/digest field-coverage comparison on go/ssa and go/types"),
+ "C11": ("DESIGN.md §3 C11",
+         "Static guard-dominance analysis of the STRUCTURAL half of the statement only: items are processed behind the not-seen and self-not-in-verified-set edges; a vertex is forwarded only behind ledger admission (interprocedural summary of sendToAccountant→AddLeaf), a transaction only behind conversion + issuer verification; "
+         "self is inserted into set and list before forwarding; forward loops skip every peer of the set under the peer-table lock; origins start with self listed. Delivery to every node, exactly-once and termination are NOT decided (model-checking questions).",
+         "delivery to every node, exactly-once, termination over all delivery orders/topologies; the seen-before-accepted marking of HasHash",
+         "edge-cut guard dominance, map-lookup facts, locksets on go/ssa"),
+ "C12": ("DESIGN.md §3 C12",
+         "Static binding/confinement analysis: an entry enters the verified set only behind Verify over (its own address ‖ the caller's item hash) with key, message and verification address on one access path; handlers bind the hash to the processed item; "
+         "the raw Gossipers field is read only as verifyGossipers' argument; every skip decision looks up a map originating from verifyGossipers or the node's own fresh entry (origin analysis through parameters of the forward helpers).",
+         "existence of an honest path (topology), delivery under all relay positions/orders",
+         "guard dominance with access-path binding + who-may-read confinement + origin analysis on go/ssa"),
+ "C16": ("DESIGN.md §3 C16",
+         "Static authorisation table of the notary API: each protected effect of each handler lies behind the success edges of the required checks bound to the same request fields (issuer signature, contract split, issuer+receiver signatures plus receiver-keyed removal, signed rejection, server challenge + signature for reads), "
+         "no ledger/awaiting effect exists outside the table, and ValidateData accepts only an existing, unexpired, byte-equal challenge.",
+         "full call-sequence state machine, at-most-once under concurrent duplicates beyond C17/C03, expiry timing",
+         "edge-cut guard dominance with access-path binding over resolved interface calls on go/ssa"),
 }
 
 NA = {
